@@ -22,14 +22,14 @@ const (
 	kindLossless       = "lossless"         // externaltoc.LayerConvertLossLessFunc
 	nMarkers           = 4
 	markerDir          = "c19m"
-	commonChunkDefault = 0
 )
 
 var allKinds = []string{kindEstargz, kindEstargzPer, kindZstd, kindZstdPer, kindExtTOC, kindExtTOCPer, kindLossless}
 
 // perLayerChunks: chunk sizes handed to individual layers; the common chunk size is
 // never one of them, so a TOC tells whose option set built it.
-var perLayerChunks = []int{64, 96, 128, 160, 200, 256, 333, 400, 512, 600, 50, 75, 110, 300, 450, 700}
+// (every gzip member costs a fresh flate compressor, so chunks are kept to a handful per file)
+var perLayerChunks = []int{300, 350, 400, 450, 500, 550, 600, 650, 333, 375, 425, 475, 525, 575, 625, 675}
 
 const commonChunk = 1000
 
@@ -107,7 +107,7 @@ func (c caseSpec) desc() string {
 func genCase(rng *prng.R, idx int, reps int) caseSpec {
 	c := caseSpec{Idx: idx, Reps: reps}
 	// every kind appears in every 7 consecutive cases; the rest is drawn
-	c.Kind = allKinds[(idx+int(rng.Intn(1)))%len(allKinds)]
+	c.Kind = allKinds[idx%len(allKinds)]
 	c.Docker = rng.Chance(1, 3)
 	c.Docker2OCI = !c.Docker || rng.Chance(4, 5)
 	if c.Kind == kindZstd || c.Kind == kindZstdPer {
@@ -118,10 +118,19 @@ func genCase(rng *prng.R, idx int, reps int) caseSpec {
 	if rng.Chance(3, 4) {
 		c.Chunk = commonChunk
 	}
-	if rng.Chance(1, 4) {
-		c.MinChunk = rng.Pick(1, 300, 2000)
+	// Every gzip member costs a fresh 0.7 MB flate compressor (tens of ms in the -race
+	// build), and without WithMinChunkSize every tar entry and every chunk is a member of
+	// its own. The subject here is the converter glue, not Build: most cases ask for one
+	// member per ~20 kB, a quarter keeps the one-member-per-chunk layout.
+	switch rng.Intn(8) {
+	case 0, 1:
+		c.MinChunk = 0
+	case 2:
+		c.MinChunk = rng.Pick(300, 2000)
+	default:
+		c.MinChunk = 20000
 	}
-	c.Level = rng.Pick(1, 1, 6, 9)
+	c.Level = rng.Pick(1, 1, 1, 6, 9)
 	if c.family() == "zstdchunked" {
 		c.Level = rng.Pick(1, 2, 3)
 	}
@@ -200,7 +209,7 @@ func (c caseSpec) effective(j int) (chunk int, prio int) {
 func markerName(k int) string { return fmt.Sprintf("%s/p%d", markerDir, k) }
 
 // layerTar draws the tar of one layer: a small random tree of the shared generator plus
-// the marker files c19m/p0..p3 (regular, unique, 700..1500 bytes) that every layer
+// the marker files c19m/p0..p3 (regular, unique, 700..1500 bytes, p0 >= 1100) that every layer
 // contains, so that "whose chunk size / whose prioritized file was applied" is decidable.
 func layerTar(seed uint64) (tarBytes []byte, markerSizes [nMarkers]int64) {
 	rng := prng.New(seed)
@@ -212,6 +221,9 @@ func layerTar(seed uint64) (tarBytes []byte, markerSizes [nMarkers]int64) {
 	es = append(es, gen.Entry{Name: markerDir + "/", Type: tar.TypeDir, Mode: 0o755, ModTime: 1500000000})
 	for k := 0; k < nMarkers; k++ {
 		sz := int64(rng.Range(700, 1500))
+		if k == 0 {
+			sz = int64(rng.Range(1100, 1500)) // longer than the common chunk size
+		}
 		markerSizes[k] = sz
 		es = append(es, gen.Entry{Name: markerName(k), Type: tar.TypeReg, Mode: 0o644, ModTime: 1500000000 + int64(k), Size: sz, ContentID: rng.U64() | 1})
 	}
